@@ -106,8 +106,13 @@ def one_exec(cfg):
                     prompts.append(msg)
                     return False
             exc = None
+            ws_arg = ws + os.sep if cfg.get("trail") else ws   # the same directory, spelled with a trailing separator
+            odb_t = odb
+            if cfg.get("ro"):
+                # the cache is opened read-only for this checkout
+                odb_t = make_odb(cfg["kind"], w.p("cache"), type=[cfg["link"]], read_only=True, **kw)
             try:
-                checkout(ws, LFS, target, odb, force=False, relink=cfg["relink"], state=state, prompt=prompt)
+                checkout(ws_arg, LFS, target, odb_t, force=False, relink=cfg["relink"], state=state, prompt=prompt)
                 info["outcome"] = "ok"
             except PromptError as e:
                 exc = e
@@ -188,12 +193,24 @@ def run_case(case):
             for relink in (False, True):
                 combos.append((target, ("same",) * 3, False, relink, loss))
                 combos.append((target, ("retyped",) + ("same",) * 2, False, relink, loss))
-    for target, vec, untracked, relink, loss in combos:
+    combos = [c + (False, False) for c in combos]
+    # the workspace directory spelled with a trailing separator (vectors with an uncached edit), and the cache
+    # opened read-only while it holds an unprotected corrupt copy of x
+    for target, vec, untracked, relink, loss, _t, _r in list(combos):
+        if loss == "none" and target in ("A", "B") and "uncached" in vec and not untracked:
+            combos.append((target, vec, untracked, relink, loss, True, False))
+        if loss == "corrupt-x":
+            combos.append((target, vec, untracked, relink, loss, False, True))
+    for target, vec, untracked, relink, loss, trail, ro in combos:
         if True:
             if True:
                 if True:
                     cfg = dict(base, target=target, vec=list(vec), untracked=untracked, relink=relink,
-                               cacheloss=loss)
+                               cacheloss=loss, trail=trail, ro=ro)
+                    if trail:
+                        res["vac"]["trailing_separator_runs"] = res["vac"].get("trailing_separator_runs", 0) + 1
+                    if ro:
+                        res["vac"]["read_only_cache_runs"] = res["vac"].get("read_only_cache_runs", 0) + 1
                     viol, info = one_exec(cfg)
                     res["n"] += 1
                     res["trans"] += 2
@@ -232,7 +249,7 @@ LOPS = [("save", "p1"), ("save", "p2"), ("mod", "p1"), ("repl", "p1"), ("rm", "p
         ("clean", ""), ("clean", "p1"), ("clean", "p2")]
 
 
-def run_links(hist):
+def run_links(hist, trail=False):
     from dvc_data.hashfile.state import State
 
     viol = []
@@ -244,7 +261,7 @@ def run_links(hist):
         stamp(path, 1000)
     with World() as w:
         root = w.mkdir("repo")
-        state = State(root_dir=root, tmp_dir=w.p("tmp"))
+        state = State(root_dir=root + os.sep if trail else root, tmp_dir=w.p("tmp"))
         try:
             p = {"p1": os.path.join(root, "p1"), "p2": os.path.join(root, "p2")}
             wf(p["p1"], b"tracked-1")
@@ -343,6 +360,12 @@ def links_case(case):
         if not any(o[0] == "clean" for o in hist):
             continue
         viol, removed = run_links(hist)
+        if hist[-1][0] == "clean" and hist[-1][1]:
+            # the same history with the State's root directory spelled with a trailing separator
+            v2, r2 = run_links(hist, trail=True)
+            viol = list(viol) + [(s_ + "/root-with-trailing-separator", d_) for s_, d_ in v2]
+            res["n"] += 1
+            res["vac"]["trailing_root_histories"] = res["vac"].get("trailing_root_histories", 0) + 1
         res["n"] += 1
         res["trans"] += len(hist)
         res["vac"]["link_histories"] += 1
@@ -503,7 +526,9 @@ def run_any(case):
 
 def replay(case):
     if case.get("part") == "links":
-        return run_links([tuple(o) for o in case["hist"]])[0]
+        h = [tuple(o) for o in case["hist"]]
+        return list(run_links(h)[0]) + [(s_ + "/root-with-trailing-separator", d_)
+                                        for s_, d_ in run_links(h, trail=True)[0]]
     if case.get("part") == "inflight":
         return run_inflight(case["cfg"], case["at"])[0]
     cfg = {k: v for k, v in case.items() if k != "part"}
@@ -535,7 +560,8 @@ def run(ctx):
         "clean-up: only safety is demanded (what is removed was recorded, unused and unmodified)",
     ]
     ctx.require("refusals", "uncached_vectors", "completed", "kind_change_runs", "cache_loss_runs", "cleanups_that_removed",
-                "link_histories", "swapped_vectors", "inflight_edits")
+                "link_histories", "swapped_vectors", "inflight_edits", "trailing_separator_runs", "read_only_cache_runs",
+                "trailing_root_histories")
     cs = []
     for kind in ("local", "base"):
         for link in ("copy", "hardlink", "symlink"):
